@@ -4,13 +4,16 @@ EXTENDS CallEffects, TLC, Json, SequencesExt
 
 VARIABLE prog
 
-Param(kd, way, amp) == [kd |-> kd, way |-> way, amp |-> amp]
+Param(kd, way, amp, sc) == [kd |-> kd, way |-> way, amp |-> amp, sc |-> sc]
+StmtContexts == {"top", "block", "loop", "then", "else", "elif_then", "elif_else", "elif2", "label"}
 \* the markers the caller has to write for an argument of this kind
 Needed(kd) == CASE kd \in {"value", "word", "aview", "sview"} -> 0 [] kd \in {"sptr", "ptr"} -> 1 [] kd = "pptr" -> 2
 
-Singles == {<<Param(kd, way, amp)>> : kd \in Kinds, way \in Ways, amp \in 0..2}
-Pairs   == {<<Param(k1, w1, Needed(k1)), Param(k2, w2, Needed(k2))>> :
-                k1 \in Kinds, k2 \in Kinds, w1 \in {"read", "write"}, w2 \in {"copy", "write", "forward"}}
+Singles == {<<Param(kd, way, amp, "top")>> : kd \in Kinds, way \in Ways, amp \in 0..2}
+            \cup {<<Param(kd, way, Needed(kd), sc)>> : kd \in Kinds, way \in Ways, sc \in StmtContexts}
+Pairs   == {<<Param(k1, w1, Needed(k1), "top"), Param(k2, w2, Needed(k2), sc)>> :
+                k1 \in Kinds, k2 \in Kinds, w1 \in {"read", "write"}, w2 \in {"copy", "write", "forward"},
+                sc \in {"top", "elif_then", "elif_else"}}
 
 Init == prog \in Singles \cup Pairs
 Next == UNCHANGED prog
